@@ -81,8 +81,13 @@ Definition allowed_sites : list (string * string) := [
   ("utils.py:safe_hash.__hash__", "id()");
   ("utils.py:write_file", "open()")
 ].
-(* read-only tables *)
+(* read-only tables; _TYPE_MISSING / _UINT_MISSING are placeholder types shared by all compilations
+   (default of Array.element_type / Enum.type, replaced by the parser; _UINT_MISSING is frozen,
+   _TYPE_MISSING is a plain Type that nothing assigns to): they are outside the disjoint-names
+   hypothesis of C18_interleaving and harmless only because they are never mutated *)
 Definition allowed_globals : list (string * string) := [
+  ("_ast.py:<module>", "module-level instance _TYPE_MISSING = Type(...)");
+  ("_ast.py:<module>", "module-level instance _UINT_MISSING = Uint(...)");
   ("lexer.py:Lexer", "class-level mutable container escaping_chars");
   ("renderer/impls/__init__.py:<module>", "module-level mutable container renderer_registry")
 ].
